@@ -42,6 +42,28 @@ def work(tasks, idx):
         f = attest.FMT_STRING[fmt]
         from ..sim import keys as _keys
         other_root = [ca.build_chain(core.make_credential("p256", 2).pub, root_key=_keys.get("p521", 2)).root_pem()]
+        if rootcfg.startswith("unloadable"):
+            # anchors are in force, but what the RP supplied cannot be read as PEM certificates (DER instead of PEM, a truncated
+            # file, an empty entry): whatever the verifier makes of that - an error is fine - it has no anchor to accept under
+            if not own:
+                continue
+            from cryptography import x509 as _x509
+            from cryptography.hazmat.primitives import serialization as _ser
+            pem = bytes(own[0])
+            der = _x509.load_pem_x509_certificate(pem).public_bytes(_ser.Encoding.DER)
+            bad = {"unloadable-der": [der], "unloadable-truncated": [pem[: len(pem) // 2]], "unloadable-empty": [b""],
+                   "unloadable-two": [der, b"-----BEGIN CERTIFICATE-----\nAAAA\n-----END CERTIFICATE-----\n"]}[rootcfg]
+            e = _reg.expectation(req, {f: bad})
+            code = cases.run_reg(r.credential, e)
+            res.evaluations += 1
+            res.nontrivial.add((fmt, choice, nint, order, fault, rootcfg, extras))
+            res.count("roots:" + rootcfg)
+            res.count("unloadable:" + corr.kind(code))
+            if code["k"] == "accept":
+                res.violations.append({"why": f"{fmt}: accepted although the anchors in force ({rootcfg}) contain no readable certificate "
+                                              f"(fault={fault})", "case": cases.reg_case(r.credential, e), "code": code,
+                                       "match": {"op": "verify_reg", "fault": rootcfg, "fmt": fmt}})
+            continue
         roots = {"own": {f: own}, "none": {}, "own+other": {f: own + other_root}, "only-other-format": {OTHER[fmt]: own},
                  "other-root": {f: other_root}, "int-as-root": None}[rootcfg]
         if rootcfg == "int-as-root":
@@ -97,6 +119,9 @@ def run(ctx, res):
                 for order in (("normal",) if nint < 2 else ("normal", "reversed")):
                     for extras in ((False, True) if nint and fmt != "android-key" and not ctx.quick() else (False,)):
                         tasks.append((fmt, rng.choice(choices), nint, order, None, rootcfg, extras))
+        for rootcfg in ("unloadable-der", "unloadable-truncated", "unloadable-empty", "unloadable-two"):
+            for fault in (None, "C.self-signed-leaf", "C.untrusted-issuer"):
+                tasks.append((fmt, choices[0], 0 if fmt == "fido-u2f" else 1, "normal", fault, rootcfg, False))
         for fault in ca.CHAIN_FAULTS:
             if fmt == "fido-u2f" and fault in ca.NEED_INTERMEDIATE:
                 continue
